@@ -368,13 +368,13 @@ theorem flush_only_flush_calls (c : Cfg) : ∀ (f : Nat) (call : Call) (w : Worl
 
 /-! ### L4: a watcher is never queued twice -/
 
-def NodupQ (w : World) : Prop := (w.queued.map (·.id)).Nodup
+def NodupQ (w : World) : Prop := (w.queued.map (·.uid)).Nodup
 
-theorem hasId_iff (l : List Watcher) (i : Nat) : hasId l i = true ↔ i ∈ l.map (·.id) := by
+theorem hasId_iff (l : List Watcher) (i : Nat) : hasId l i = true ↔ i ∈ l.map (·.uid) := by
   simp [hasId, List.any_eq_true]
 
-theorem nodup_append_filter (a b : List Watcher) (ha : (a.map (·.id)).Nodup) (hb : (b.map (·.id)).Nodup) :
-    ((a ++ b.filter (fun x => !hasId a x.id)).map (·.id)).Nodup := by
+theorem nodup_append_filter (a b : List Watcher) (ha : (a.map (·.uid)).Nodup) (hb : (b.map (·.uid)).Nodup) :
+    ((a ++ b.filter (fun x => !hasId a x.uid)).map (·.uid)).Nodup := by
   rw [List.map_append, List.nodup_append]
   refine ⟨ha, (List.filter_sublist.map _).nodup hb, ?_⟩
   intro x hx y hy e
@@ -382,18 +382,18 @@ theorem nodup_append_filter (a b : List Watcher) (ha : (a.map (·.id)).Nodup) (h
   obtain ⟨z, hz, rfl⟩ := List.mem_map.1 hy
   have := (List.mem_filter.1 hz).2
   simp only [Bool.not_eq_true'] at this
-  have h2 := (hasId_iff a z.id).2 hx
+  have h2 := (hasId_iff a z.uid).2 hx
   rw [this] at h2
   cases h2
 
-theorem nodup_append_single (a : List Watcher) (x : Watcher) (ha : (a.map (·.id)).Nodup)
-    (hx : hasId a x.id = false) : ((a ++ [x]).map (·.id)).Nodup := by
+theorem nodup_append_single (a : List Watcher) (x : Watcher) (ha : (a.map (·.uid)).Nodup)
+    (hx : hasId a x.uid = false) : ((a ++ [x]).map (·.uid)).Nodup := by
   rw [List.map_append, List.nodup_append]
   refine ⟨ha, by simp, ?_⟩
   intro i hi j hj e
   simp at hj
   subst hj; subst e
-  have := (hasId_iff a x.id).2 hi
+  have := (hasId_iff a x.uid).2 hi
   rw [hx] at this; cases this
 
 theorem nodupQ (c : Cfg) : ∀ (f : Nat) (call : Call) (w : World),
@@ -443,7 +443,7 @@ theorem nodupQ (c : Cfg) : ∀ (f : Nat) (call : Call) (w : World),
 theorem deferred_kept (c : Cfg) : ∀ (f : Nat) (call : Call) (w : World),
     (run c f call w).1 ≠ .oof → w.batch = true → call.deferring = true →
     (∀ e ∈ w.events, e ∈ (run c f call w).2.1.events) ∧
-    (∀ x ∈ w.queued, x.id ∈ (run c f call w).2.1.queued.map (·.id)) := by
+    (∀ x ∈ w.queued, x.uid ∈ (run c f call w).2.1.queued.map (·.uid)) := by
   intro f
   induction f with
   | zero => intro call w h; simp [run] at h
